@@ -216,6 +216,10 @@ PREDEF_BODY = {"__STDC__": "1", "__x86_64__": "1", "__linux__": "1", "linux": "1
                "__ELF__": "1", "__SIZE_TYPE__": "unsigned long", "__unix__": "1"}
 
 
+# handler-backed built-ins: defined from the start; once the user defines them they are ordinary macros
+PREDEF_DYNAMIC = ["__LINE__", "__COUNTER__", "__FILE__", "__BASE_FILE__", "__TIMESTAMP__"]
+
+
 def l2_gen(seed, families, big):
     """returns plan: list of ops; op = [where, kind, name, body]  where in {arg, src}
     kind in {def, fdef, undef, probe_ifdef, probe_ifdefined, probe_expand, probe_call}"""
@@ -232,7 +236,7 @@ def l2_gen(seed, families, big):
     while len(names) < nnames:
         style = r.below(4)
         if style == 0 and not big:
-            n = r.pick(PREDEF)
+            n = r.pick(PREDEF + PREDEF_DYNAMIC)
         elif style == 1:
             n = "".join(r.pick("ab_") for _ in range(r.range(1, 3)))
         else:
@@ -303,6 +307,8 @@ def l2_gen(seed, families, big):
 def l2_render(plan):
     """-> (argv_extra, source_text, expected_lines)   model: a python dict, last write wins"""
     model = dict((k, ("obj", v)) for k, v in PREDEF_BODY.items())
+    for k in PREDEF_DYNAMIC:
+        model[k] = ("dyn", None)   # what they expand to is not modelled; that they are defined, and stop being special once redefined, is
     args, src, exp = [], [], []
     pid = 0
     for where, kind, n, b, sep in plan["ops"]:
@@ -340,6 +346,8 @@ def l2_render(plan):
                     src.append("\"D\" %d" % pid)
                 src.append("#endif")
                 exp.append('"%s" %d' % ("D" if d else "U", pid))
+            elif d and model[n][0] == "dyn":
+                pid -= 1    # no expansion probe for a built-in that is still built in
             elif kind == "probe_expand":
                 src.append('"X" %d %s ;' % (pid, n))
                 if d and model[n][0] == "obj":
